@@ -581,6 +581,19 @@ var shadowDepth int
 var lastShadowSink []byte
 
 // implR: R <conc> <blob> <chunk> <failAt> <eofWithData> ops…   (+ `E:<blob>` expect exactly, `P:<blob>` expect strict prefix & error)
+// countSink keeps a running FNV-1a of what it is given and nothing else
+type countSink struct{ h uint64 }
+
+func (c *countSink) Write(p []byte) (int, error) {
+	if c.h == 0 {
+		c.h = 14695981039346656037
+	}
+	for _, b := range p {
+		c.h = (c.h ^ uint64(b)) * 1099511628211
+	}
+	return len(p), nil
+}
+
 // readerShadow > 0 while implR runs a comparison session on a new Reader (no oracle requests, no extra checks)
 var readerShadow int
 
@@ -659,10 +672,16 @@ func implR(f []string, o *oracleSink) string {
 	haveE, haveP := false, false
 	expectErr := ""
 	var ms0 runtime.MemStats
+	for _, op := range f[6:] {
+		if op == "wd" {
+			runtime.GC() // the live-heap comparison of `wd` starts from a collected heap
+		}
+	}
 	runtime.ReadMemStats(&ms0)
 	cleanEOF, sawErr := false, false
 	firstErr := ""
 	hung := false
+	discardedN, discardedH, discarded := 0, uint64(0), false
 	for _, op := range f[6:] {
 		p := strings.Split(op, ":")
 		if p[0] == "E" {
@@ -729,6 +748,29 @@ func implR(f []string, o *oracleSink) string {
 					}
 				}
 				return fmt.Sprintf("%d/%d/%s", n, fnv(all), errName(err))
+			case "wd":
+				// WriteTo into a sink that keeps nothing, then the heap that is still alive while the Reader is:
+				// whatever the stream announces, a Reader holds a few block buffers and a 64 KiB window
+				cw := &countSink{}
+				n, err := zr.WriteTo(cw)
+				if !cleanEOF && !sawErr {
+					if err == nil {
+						cleanEOF = true
+					} else {
+						firstErr = errName(err)
+						sawErr = true
+					}
+				}
+				runtime.GC()
+				var ms runtime.MemStats
+				runtime.ReadMemStats(&ms)
+				live := int64(ms.HeapAlloc) - int64(ms0.HeapAlloc)
+				if live > 40<<20 {
+					notes = append(notes, fmt.Sprintf("LIVE-HEAP-EXCESS:%dMiB", live>>20))
+				}
+				runtime.KeepAlive(zr)
+				discardedN, discardedH, discarded = int(n), cw.h, true
+				return fmt.Sprintf("%d/%d/%s", n, cw.h, errName(err))
 			case "s":
 				return fmt.Sprint(uint64(zr.Size()))
 			case "R":
@@ -772,6 +814,11 @@ func implR(f []string, o *oracleSink) string {
 				ref = fmt.Sprintf("%s#%d", ref[:strings.IndexByte(ref, '#')], cons-4)
 			}
 			o.ask("accept", "SL "+ref, fmt.Sprintf("ok legacy len=%d fnv=%d", len(delivered), fnv(delivered)))
+		} else if len(data) > 0 && discarded {
+			if discardedH == 0 {
+				discardedH = 14695981039346656037
+			}
+			o.ask("accept", "SFC 0 "+ref, fmt.Sprintf("ok len=%d fnv=%d consumed=%d", discardedN, discardedH, cons))
 		} else if len(data) > 0 {
 			o.ask("accept", "SFC 0 "+ref, fmt.Sprintf("ok len=%d fnv=%d consumed=%d", len(delivered), fnv(delivered), cons))
 		}
